@@ -3,6 +3,7 @@
 // which one is Byzantine (casts anything, including both forks at one height and links from
 // unjustified sources), two honest ones that only cast non-slashable links from sources that are
 // justified, blocks of both forks arriving in any interleaving, optional restarts.
+// Plus the deep world (see deepWorld): several finalizations by votes alone, restarts at every position.
 package main
 
 import (
@@ -21,7 +22,7 @@ type link struct{ s, t int }
 
 var (
 	W        *chainlab.World
-	honest   = map[int]bool{} // event index -> honest vote
+	honest   = map[int]bool{} // event index -> honest vote (of the world W currently points to)
 	restartE = -1
 )
 
@@ -179,6 +180,90 @@ func runHist(h []int, _ json.RawMessage) (out xplore.Out) {
 	return
 }
 
+// ---------------------------------------------------------------- deep world: several finalizations without a block
+//
+// The last finalized checkpoint is written to the store only when a block is connected, votes finalize at any
+// time. So the state a restart finds can be several finalizations behind, and the start-up code has to walk
+// forward again. Deep world: chain c1..c6 (checkpoints c2, c4, c6) with a side block s3 on c2; validators 1..3
+// vote 0->c2, c2->c4, c4->c6 (link-major order: justifies c2, then finalizes c2, then finalizes c4) with no block
+// in between; a restart is inserted at every position of the vote sequence, and at every pair of positions;
+// afterwards s4 (extends the side branch that the finalized c4 excludes) and c7 are delivered. Same oracle as
+// the main search after every event (finalized only moves to descendants, also across restarts, ...).
+var (
+	Wmain, Wdeep           *chainlab.World
+	honestMain, honestDeep = map[int]bool{}, map[int]bool{}
+	deepBase, deepVotes    []int
+	deepTail               []int
+	deepRestart            int
+)
+
+func deepWorld() *chainlab.World {
+	net := labnet.Setup(2, 2, 4)
+	net.SetLocalKey(labnet.OutsiderKey())
+	w := chainlab.NewWorld(net, net.Gen, nil)
+	prev := 0
+	var c []int
+	for i := 1; i <= 7; i++ {
+		prev = w.AddBlock(prev, fmt.Sprintf("c%d", i), labnet.BlockOpt{})
+		c = append(c, prev)
+	}
+	s3 := w.AddBlock(c[1], "s3", labnet.BlockOpt{Tag: 1})
+	s4 := w.AddBlock(s3, "s4", labnet.BlockOpt{Tag: 1})
+	w.AddBlockEvents()
+	evOf := map[int]int{}
+	for ei, e := range w.Events {
+		if e.Kind == chainlab.EvBlock {
+			evOf[e.Block] = ei
+		}
+	}
+	for _, b := range append(append([]int{}, c[:6]...), s3) {
+		deepBase = append(deepBase, evOf[b])
+	}
+	for _, l := range []link{{0, c[1]}, {c[1], c[3]}, {c[3], c[5]}} {
+		for v := 1; v <= 3; v++ {
+			w.AddVote(v, l.s, l.t)
+			honestDeep[len(w.Events)-1] = true
+			deepVotes = append(deepVotes, len(w.Events)-1)
+		}
+	}
+	w.Events = append(w.Events, chainlab.Event{Kind: chainlab.EvRestart, Name: "RESTART"})
+	deepRestart = len(w.Events) - 1
+	deepTail = []int{evOf[s4], evOf[c[6]]}
+	return w
+}
+
+func deepHistories() [][]int {
+	var hs [][]int
+	build := func(at ...int) []int {
+		h := append([]int{}, deepBase...)
+		for i := 0; i <= len(deepVotes); i++ {
+			for _, a := range at {
+				if a == i {
+					h = append(h, deepRestart)
+				}
+			}
+			if i < len(deepVotes) {
+				h = append(h, deepVotes[i])
+			}
+		}
+		return append(h, deepTail...)
+	}
+	hs = append(hs, build())
+	for i := 0; i <= len(deepVotes); i++ {
+		hs = append(hs, build(i))
+		for j := i; j <= len(deepVotes); j++ {
+			hs = append(hs, build(i, j))
+		}
+	}
+	return hs
+}
+
+func runDeep(h []int, x json.RawMessage) xplore.Out {
+	W, honest = Wdeep, honestDeep
+	defer func() { W, honest = Wmain, honestMain }()
+	return runHist(h, x)
+}
+
 func countOf(h []int, e int) int {
 	n := 0
 	for _, x := range h {
@@ -197,9 +282,12 @@ func main() {
 		}
 	}
 	W = world(thorough)
+	Wmain, honestMain = W, honest
+	Wdeep = deepWorld()
 	spec := &xplore.Spec{Name: "c16", Run: runHist, Recycle: 300, Describe: func(h []int) interface{} { return W.Describe(h) }}
+	deep := &xplore.Spec{Name: "c16-deep", Run: runDeep, Recycle: 300, Describe: func(h []int) interface{} { return Wdeep.Describe(h) }}
 	if par.IsWorker() {
-		xplore.Worker(spec)
+		xplore.Worker(spec, deep)
 	}
 	run := ev.Start("C16", "model_checking")
 	spec.MaxDepth = len(W.Events) + 1
@@ -208,6 +296,10 @@ func main() {
 	run.Set("transitions", st.Transitions)
 	run.Set("traces_validated_against_impl", st.Checks)
 	run.Set("max_depth", st.MaxDepth)
+	dh := deepHistories()
+	ds := xplore.Flat(run, deep, dh)
+	run.Set("deep_world", map[string]interface{}{"histories": len(dh), "distinct_end_states": ds.States, "events_executed": ds.Transitions, "checks": ds.Checks,
+		"what": "chain c1..c6 + side block s3; validators 1..3 vote 0->c2, c2->c4, c4->c6 with no block in between (two finalizations by votes alone); a restart at every position of the vote sequence and at every pair of positions; then s4 on the excluded side branch and c7"})
 	var all []int
 	for i := range W.Events {
 		all = append(all, i)
